@@ -52,6 +52,36 @@ pub fn eval_rendering(ts: &[T], ch: &mut Ch, acc: &mut Acc, only: Option<(u8, us
     }
 }
 
+/// (clause of the statement, ill-formed text)
+fn hand_table() -> Vec<(&'static str, String)> {
+    let mut v: Vec<(&'static str, String)> = vec![];
+    // a quoted implicit key spanning lines: brace-less pairs of a flow sequence, after other entries
+    for pre in ["", "x, ", "? x, ", "? x: y, ", "{a: b}, ", "[a], ", "\"q\": r, "] {
+        for (q, e) in [('"', '"'), ('\'', '\'')] {
+            v.push(("multi-line quoted implicit key", format!("[{pre}{q}a\n  b{e}: c]\n")));
+            v.push(("multi-line quoted implicit key", format!("- [{pre}{q}a\n    b{e}: c]\n")));
+            v.push(("multi-line quoted implicit key", format!("k: [{pre}{q}a\n    b{e}: c, d]\n")));
+        }
+    }
+    // ... and of block mappings, nested and after other entries
+    for pre in ["", "x: y\n", "? x\n", "- a\n"] {
+        let ind = if pre == "- a\n" { continue } else { "" };
+        v.push(("multi-line quoted implicit key", format!("{pre}{ind}\"a\n  b\": c\n")));
+        v.push(("multi-line quoted implicit key", format!("{pre}{ind}'a\n  b': c\n")));
+    }
+    v.push(("multi-line quoted implicit key", "- \"a\n  b\": c\n".into()));
+    v.push(("multi-line quoted implicit key", "k:\n  \"a\n   b\": c\n".into()));
+    // an undeclared named handle, wherever the tag stands among the properties
+    for t in ["&a !e!x v", "!e!x &a v", "- &a !e!x\n- b", "k: &a !e!x v", "[&a !e!x v]", "{&a !e!x k: v}", "&a !e!x [v]", "&a !e!x\n- v", "? &a !e!x k\n: v"] {
+        v.push(("undeclared tag handle", format!("{t}\n")));
+    }
+    // an alias with no preceding anchor, in key and value positions and after properties were seen
+    for t in ["*a", "k: *a", "*a : v", "[*a]", "{*a : v}", "- &b x\n- *a", "&a x: *b"] {
+        v.push(("alias without anchor", format!("{t}\n")));
+    }
+    v
+}
+
 pub fn replay(case: &Value) -> Result<Acc, String> {
     let mut acc = Acc::default();
     if case["kind"] == "suite" {
@@ -117,6 +147,19 @@ pub fn check(tier: Tier) -> i32 {
             rep.scope("suite error cases", n, done == cases.len() as u64);
         }
     }
+    // a table of ill-formed texts that need more nodes and deviations at once than the enumeration
+    // reaches: each names the clause of the statement it falls under
+    let table = hand_table();
+    let (acc, done) = par_blocks(table.len() as u64, &budget, |b, acc| {
+        let (clause, text) = &table[b as usize];
+        acc.evals += 1;
+        if let Some(o) = accepted(text) {
+            acc.violation(Violation { key: format!("table-case-accepted clause={clause}"), expected: "an error".into(), observed: o, case: json!({"kind": "suite", "name": format!("table: {clause}"), "text": text}), size: text.len() });
+        }
+    });
+    let n = acc.evals;
+    rep.acc.merge(acc);
+    rep.scope(&format!("hand-listed ill-formed texts ({})", table.len()), n, done == table.len() as u64);
     let cases = rep.acc.evals;
     rep.mc = Some((states.max(1), cases.max(1), cases * 2));
     rep.extra.insert("explanation".into(), json!("states = well-formed renderings (choice vectors); transitions = (rendering, operator, site) damaged texts; traces_validated = parses of damaged text on the real parser (2 back-ends)"));
